@@ -135,6 +135,7 @@ def run(ctx):
     tmp = tempfile.mkdtemp(prefix="c20_", dir=base)
     bad = None
     stats = collections.Counter()
+    distinct = set()
     evals = 0
     samples = []
     try:
@@ -164,6 +165,7 @@ def run(ctx):
                 want = lib_translate(fmt, p)
                 got = run_translate(fmt, p, outp)
                 evals += 1
+                distinct.add(("translate", fmt, texts[i]))
                 stats["translate:%s:%s" % (fmt, want[0])] += 1
                 ok = (want == got) if want[0] == "ok" else (got[0] == "raise" and got[1] == want[1])
                 if want[0] == "ok" and got[0] == "ok" and fmt == "JSON":
@@ -183,6 +185,7 @@ def run(ctx):
         for grp in groups:
             status, rep = run_validate(grp)
             evals += 1
+            distinct.add(("validate", tuple(grp)))
             stats["validate:%s:%d" % (status[0], min(len(grp), 2))] += 1
             if status[0] != "ok":
                 if bad is None:
@@ -210,7 +213,7 @@ def run(ctx):
         core.violation(ctx, "proof", {"what": "C20 proof obligations no longer check", "broken": lean["problems"]}, False)
     for f in [f for f in core.load_known()["findings"] if f["property"] == "C20"]:
         ctx.known_hits.append("%s %s" % (f["id"], f["what"]))
-    cov = {"evaluations": evals, "distinct_nontrivial": evals,
+    cov = {"evaluations": evals, "distinct_nontrivial": len(distinct),
            "rule": "%d label files (generated in four spelling families, a quarter of them token-damaged, plus tests/data) "
                    "x 5 output formats through pvl_translate.main() in-process vs pvl.load + pvl.dumps with a fresh "
                    "encoder of that format (JSON compared after parsing with pair lists); pvl_validate.main() on single "
